@@ -633,13 +633,13 @@ Section Steps.
         - intros x Hx. rewrite tk_emit. auto.
         - intros x Hx. rewrite tk_pos, tk_emit_end. auto.
         - intros x Hx. rewrite tk_emit. destruct (Nat.eq_dec x k) as [->|Hne].
-          + rewrite tk_getw, Nat.eqb_refl. cbn. lia.
+          + rewrite tk_getw, Nat.eqb_refl. cbn. unfold w in *. lia.
           + rewrite tk_cons by exact Hne. auto.
         - intros x Hx. rewrite tk_next. auto.
         - intros x Hx. rewrite tk_active, tk_pc. auto.
         - intros x Hx He. rewrite tk_eof in He. rewrite tk_active, tk_emit_end. auto.
         - intros x Hx. specialize (Ipc x Hx). unfold PChunkerInv.pcl in *. rewrite tk_pc, tk_next, tk_emit_end. exact Ipc.
-        - intros x Hx Hkx. cbn [p_c s'] in Hkx. unfold sync_ok. rewrite tk_sync, tk_emit, tk_cons by lia. apply Isy; auto.
+        - intros x Hx Hkx. cbn [p_c s' k_cur] in Hkx. unfold sync_ok. rewrite tk_sync, tk_emit, tk_cons by lia. apply Isy; auto.
         - intros a a' Hlt Ha' Hac. unfold act in Hac. rewrite tk_active in Hac. rewrite tk_next. apply Ia; auto.
         - intros a x Hax Hxn Hx. rewrite tk_next in Hxn. rewrite tk_active, tk_emit.
           destruct (Nat.eq_dec x k) as [->|Hne].
@@ -677,9 +677,8 @@ Section Steps.
     Proof.
       intros Hcov.
       destruct I as [In Ich Ica Ipo Ico Ine Iac Ieo Ipc Isy Ia Ib Ic Isl Ikb Iout Icol Idone Ihand].
-      constructor; auto.
-      - cbn. discriminate.
-      - intros _. cbn. destruct Iout as [Oc _]. fold out in Oc. rewrite <- (out_length_chain out Oc). exact Hcov.
+      constructor; auto; cbn [p_c k_done k_cur k_out]; try discriminate.
+      intros _. destruct Iout as [Oc _]. fold out in Oc. rewrite <- (out_length_chain out Oc). exact Hcov.
     Qed.
 
     (* C3: the current worker has stopped and its bucket is drained: move on *)
@@ -732,14 +731,12 @@ Section Steps.
             * intros x Hx Hlt. rewrite Hg in Hlt. apply (Ho x Hx Hlt).
             * unfold PChunkerInv.frontier in *. rewrite Hg. exact Hf. }
       constructor; auto.
-      - intros x Hx Hkx. cbn [p_c k_cur] in Hkx. apply Isy; [exact Hx|]. fold k. lia.
-      - intros x Hxk Hx. cbn [p_c k_cur] in Hxk. rewrite Hg. destruct (Nat.eq_dec x k) as [->|Hne].
+      - intros x Hx Hkx. unfold s' in Hkx. cbn in Hkx. apply Isy; [exact Hx|]. fold k. lia.
+      - intros x Hxk Hx. unfold s' in Hxk. cbn in Hxk. rewrite Hg. destruct (Nat.eq_dec x k) as [->|Hne].
         + fold w. split; [exact Hin|exact Hce].
         + apply Ikb; [fold k; lia|exact Hx].
-      - split; assumption.
-      - intros _. exact Hcol'.
       - cbn. discriminate.
-      - intros a Ha Hka Hac He Ho. cbn [p_c k_cur] in Hka. apply Ihand; auto. fold k. lia.
+      - intros a Ha Hka Hac He Ho. unfold s' in Hka. cbn in Hka. apply Ihand; auto. fold k. lia.
     Qed.
   End Collector.
 End Steps.
